@@ -23,13 +23,14 @@ MX = ["<svg>", "<math>", "<mtext>", "<mi>", "<mglyph>", "<annotation-xml encodin
       "<style>", "<script>", "<noscript>", "<textarea>", "<xmp>", "<iframe>", "<noembed>", "<noframes>", "<plaintext>", "<listing>",
       "<table>", "<select>", "<option>", "<p>", "</p>", "<a>", "<b>", "<br>", "</br>", "<img src=x onerror=1>", "<!--", "-->",
       "<![CDATA[", "]]>", "</style>", "</title>", "</svg>", "</math>", "x", "</textarea>", "<a href=javascript:x>", "</table>", "</select>",
-      "&lt;img src=x onerror=1&gt;", "</noscript>", "</script>", "&lt;/textarea&gt;", "&lt;/title&gt;", "&lt;/style&gt;", "&lt;!--"]
+      "&lt;img src=x onerror=1&gt;", "</noscript>", "</script>", "&lt;/textarea&gt;", "&lt;/title&gt;", "&lt;/style&gt;", "&lt;!--",
+      "&lt;?"]
 tw.THEMES.setdefault("MX", MX)
 # attribute values whose character references are themselves escaped in the source: what the sanitizer judged
 # (the decoded value) must be what the second parse decodes again, under every quoting decision of the serializer
 MXA = ["<a href=", '<a href="', "javascript", ":", "&amp;colon;", "&amp;#58;", "&amp;", "colon;", "x", '">', ">", " ", "'",
        # allowed attributes whose VALUE contains what would be markup if the serializer left it unquoted
-       '<a title="x onmouseover=1">', '<a title="x><img src=x onerror=1>">', "<a title='x\tstyle=y'>", '<a title="x`onmouseover=1">']
+       '<a title="x onmouseover=1">', '<a title="x><img src=x onerror=1>">', "<a title='x\tstyle=y'>", '<a title="x`onmouseover=1">', "&lt;?", "&lt;!"]
 tw.THEMES.setdefault("MXA", MXA)
 MXC = ["<svg>", "<math>", "<mtext>", "<annotation-xml encoding=text/html>", "<foreignObject>", "<title>", "<style>", "<noscript>", "<textarea>",
        "<xmp>", "<table>", "<select>", "<p>", "</p>", "<a>", "<img src=x onerror=1>", "<!--", "-->", "</style>", "</svg>", "x",
